@@ -230,6 +230,16 @@ func ruleR16_1(p *Program, r *Report) {
 				continue
 			}
 			root, sel, ok := fieldLoad(com.Value)
+			if !ok && rc.in == fn {
+				// w.active().Flush(): the compressor is among the objects the selector helper hands back
+				if sels, isSel := selectorHelperFields(com.Value, recv); isSel {
+					for _, s2 := range sels {
+						if s2 == "."+lcField {
+							root, sel, ok = recv, s2, true
+						}
+					}
+				}
+			}
 			if !ok || sel != "."+lcField || !(root == recv || (rc.in != fn && len(rc.in.Params) > 0 && root == ssa.Value(rc.in.Params[0]) && boundTo(root, recv, rc.bind))) {
 				continue
 			}
@@ -256,6 +266,13 @@ func ruleR16_1(p *Program, r *Report) {
 		if com.IsInvoke() && com.Method.Name() == "Close" {
 			if root, sel, ok := fieldLoad(com.Value); ok && root == recv && sel == "."+lcField {
 				closeCall = c
+			} else if sels, ok := selectorHelperFields(com.Value, recv); ok {
+				// w.active().Close(): the compressor is among the objects the selector helper hands back
+				for _, s2 := range sels {
+					if s2 == "."+lcField {
+						closeCall = c
+					}
+				}
 			}
 		}
 	}
